@@ -776,6 +776,8 @@ package libinjection
 //@   cost     <= (result - old(s.pos)) + 8
 
 //@ spec dd2At(s *sqliState, k int) bool = k + 1 < s.length && s.input[k] == '$' && s.input[k+1] == '$'
+//@ spec tagAt(s *sqliState, k int, p int, m int) bool = k + m <= s.length && s.input[k] == s.input[p] && (forall q in [k, k + m): s.input[q] == s.input[q - k + p])
+//@ spec isAZ(c byte) bool = ('a' <= c && c <= 'z') || ('A' <= c && c <= 'Z')
 //@ func parseMoney
 //@   rel requires dollarFixed(L(s.input), R(s.input))
 //@   requires wfS(s) && s.pos < s.length && s.input[s.pos] == '$'
@@ -785,6 +787,13 @@ package libinjection
 //@                 s.current.category == sqliTokenTypeString && s.current.strOpen == '$' && s.current.pos == p + 2 &&
 //@                 (s.current.strClose == '$' ==> dd2At(s, result - 2) && p + 2 <= result - 2 && (forall k in [p + 2, result - 2): !dd2At(s, k)) && s.current.len == min(result - 2 - (p + 2), 31)) &&
 //@                 (s.current.strClose != '$' ==> s.current.strClose == 0 && result == s.length && (forall k in [p + 2, s.length): !dd2At(s, k)) && s.current.len == min(s.length - (p + 2), 31))
+//@   ensures  [C18 C06] @dollartag let p = old(s.pos) in let b = s.current.pos in let m = s.current.pos - old(s.pos) in
+//@                 (p + 1 < s.length && isAZ(s.input[p+1]) && s.current.category == sqliTokenTypeString) ==>
+//@                 s.current.strOpen == '$' && m >= 3 && b <= s.length && s.input[b-1] == '$' && (forall k in [p + 1, b - 1): isAZ(s.input[k])) &&
+//@                 (s.current.strClose == '$' ==> tagAt(s, result - m, p, m) && b <= result - m && (forall k in [b, result - m): !tagAt(s, k, p, m)) && s.current.len == min(result - m - b, 31)) &&
+//@                 (s.current.strClose != '$' ==> s.current.strClose == 0 && result == s.length && (forall k in [b, s.length): !tagAt(s, k, p, m)) && s.current.len == min(s.length - b, 31))
+//@   ensures  [C18 C06] @dollartag-when let p = old(s.pos) in forall x in [1, s.length - p - 1): ((forall k in [p + 1, p + 1 + x): isAZ(s.input[k])) && s.input[p+1+x] == '$') ==>
+//@                 s.current.category == sqliTokenTypeString && s.current.pos == p + x + 2
 
 //@ func parseOther
 //@   rel on
